@@ -656,6 +656,23 @@ impl<T> BitFlags<T> {
     pub const fn const_token() -> ConstToken<T> { unimplemented!() }
     #[verifier::external_body]
     pub fn from_bits_truncate_c(v: u32, t: ConstToken<T>) -> (r: Self) { unimplemented!() }
+    // enumflags2: "Create a BitFlags from an underlying bitwise value. If any unknown bits are set, ignore them." (total)
+    #[verifier::external_body]
+    pub fn from_bits_truncate(v: u32) -> (r: Self) { unimplemented!() }
+    #[verifier::external_body]
+    pub fn bits(self) -> (r: u32) ensures r == self.bits_view() { unimplemented!() }
+}
+// discovery/change_request.rs: the flag accessors (the value itself is an integer kind, see inc/attrs_gen.rs)
+//@item! stun_rs :: mod attributes > mod discovery > mod change_request > enum ChangeRequestFlags
+impl ChangeRequest {
+//@item stun_rs :: mod attributes > mod discovery > mod change_request > impl ChangeRequest > fn new
+//@tags C19
+//@spec
+    ensures r.0 == (match flags { Some(f) => f.bits_view(), None => 0u32 }),
+//@end
+//@item stun_rs :: mod attributes > mod discovery > mod change_request > impl ChangeRequest > fn flags
+//@tags C19 C03
+//@end
 }
 pub struct StunSecurityFeatures;
 pub struct B64Engine;
